@@ -253,5 +253,7 @@ def run(ctx):
                 ctx.violation(e.key, e.what, case=case)
         ctx.hit('Population.self-links', sqlgen.SELF_LINKS[0])
         ctx.hit('Population.permuted-compound-keys', sqlgen.PERMUTED_KEYS[0])
+        for k, v in sqlgen.SHAPES.items():
+            ctx.hit('Schema.' + k, v)
     finally:
         shutil.rmtree(tmpdir, ignore_errors=True)
